@@ -139,10 +139,14 @@ TrNext ==
                             \* shared (iter) resp. exclusive (iter_mut) borrow held while the item lives
                             !.bor = @ /\ BorOK(present, guards')]
         /\ val' = IF E.out = "some" /\ c \in DOMAIN val THEN [val EXCEPT ![c] = v1] ELSE val
+        \* a panicking next() has passed the entry it panicked on (the one the property expects
+        \* next); the same iterator stays alive and is pulled again later in the history
         /\ iters' = IF E.out = "some"
                     THEN Ext(iters, h, [k |-> it.k, pos |-> it.pos + 1, y |-> Append(it.y, E.tag)])
                     ELSE IF E.out = "none" THEN iters
-                    ELSE Rem(iters, h)
+                    ELSE LET exp == Expected(first, present)  n == Len(it.y) + 1 IN
+                         Ext(iters, h, [k |-> it.k, pos |-> it.pos + 1,
+                                        y |-> IF n <= Len(exp) THEN Append(it.y, exp[n]) ELSE it.y])
   /\ UNCHANGED <<tab, present, first, addr>> /\ Same
 
 TrIdrop ==
